@@ -32,7 +32,8 @@ def seeds_table() -> str:
     for mf in sorted(glob.glob(os.path.join(ROOT, "seeded", "C*", "*", "meta.json"))):
         m = json.load(open(mf))
         sid = "/".join(mf.split(os.sep)[-3:-1])
-        rnd = "2 (hold-out)" if sid.split("/")[1].startswith("r2") else "1"
+        k = sid.split("/")[1]
+        rnd = {"r2": "2 (blind)", "r3": "3 (blind)", "r4": "4 (blind)"}.get(k[:2], "1")
         ck = m.get("checks_run_against_it", {})
         rep = "; ".join(f"{p}: {', '.join(r.split('.', 1)[1] for r in rs)}" for p, rs in sorted(ck.get("reported_by", {}).items())) or "**none**"
         err = ", ".join(ck.get("analysis_error_in", [])) or ""
